@@ -451,6 +451,9 @@ Definition tree_op (be : backend) (o : str) (fs : list str) (d : value) : option
         Some (delete_fields r, match r with Ret (d', _) => d' | _ => d end, rest)
     | _ => None
     end
+  else if is_op o "N" then                 (* every node resolves from the pointer spelled from its path *)
+    let ps := all_paths d in
+    Some ([s2b "nodes"; dec_of_nat (length ps); s2b "ok"; dec_of_nat (length (filter (node_addressable d) ps))], d, fs)
   else if is_op o "W" then                 (* *resolve_mut(p) = v *)
     match fs with
     | f :: rest =>
